@@ -48,7 +48,7 @@ pub fn expand_self<T: VisitableMut + Clone>(input: &T, to: &Type) -> T {
                 // a bare `dyn A + B` may land behind `&` or before `+`: keep it in parentheses
                 let to = self.to;
                 *i = match to {
-                    Type::TraitObject(_) | Type::ImplTrait(_) => parse_quote!((#to)),
+                    Type::TraitObject(_) | Type::ImplTrait(_) | Type::Verbatim(_) => parse_quote!((#to)),
                     _ => to.clone(),
                 };
             } else {
@@ -76,7 +76,7 @@ pub fn expand_self<T: VisitableMut + Clone>(input: &T, to: &Type) -> T {
             }
             let to = self.to;
             let to = match to {
-                Type::TraitObject(_) | Type::ImplTrait(_) => quote::quote!((#to)),
+                Type::TraitObject(_) | Type::ImplTrait(_) | Type::Verbatim(_) => quote::quote!((#to)),
                 _ => quote::quote!(#to),
             };
             i.tokens = replace(std::mem::take(&mut i.tokens), &to);
@@ -156,7 +156,8 @@ impl GenericParamSet {
 /// (`&dyn A + B` is ambiguous).
 pub fn ref_operand(ty: &Type) -> proc_macro2::TokenStream {
     match ty {
-        Type::TraitObject(_) | Type::ImplTrait(_) => quote::quote!((#ty)),
+        // also tokens syn keeps verbatim (`dyn* A + B`): what they are is not known
+        Type::TraitObject(_) | Type::ImplTrait(_) | Type::Verbatim(_) => quote::quote!((#ty)),
         _ => quote::quote!(#ty),
     }
 }
